@@ -720,7 +720,36 @@ macro_rules! ty_seq { ($($t:ident)*) => { $( impl<T: Ty + Clone> Ty for $t<T> {
     fn small() -> Vec<Self> { seqs_of::<T>().into_iter().map(|v| v.into_iter().collect()).collect() }
     fn ordered() -> bool { T::ordered() }
 } )* } }
-ty_seq!(Vec VecDeque LinkedList);
+ty_seq!(Vec LinkedList);
+impl<T: Ty + Clone> Ty for VecDeque<T> {
+    fn shape() -> Shape {
+        Shape::Seq(Box::new(T::shape()))
+    }
+    fn small() -> Vec<Self> {
+        // every sequence once contiguous and once wrapped around the end of the ring buffer (built by pushing the
+        // second half to the back and the first half to the front of a deque with spare capacity)
+        let mut out: Vec<Self> = Vec::new();
+        for v in seqs_of::<T>() {
+            out.push(v.iter().cloned().collect());
+            if v.len() >= 2 && v.len() <= 256 {
+                let mid = v.len() / 2;
+                let mut d: VecDeque<T> = VecDeque::with_capacity(v.len() + 8);
+                for x in &v[mid..] {
+                    d.push_back(x.clone());
+                }
+                for x in v[..mid].iter().rev() {
+                    d.push_front(x.clone());
+                }
+                debug_assert!(!d.as_slices().1.is_empty() || d.len() < 2);
+                out.push(d);
+            }
+        }
+        out
+    }
+    fn ordered() -> bool {
+        T::ordered()
+    }
+}
 impl<T: Ty + Clone + Ord> Ty for BinaryHeap<T> {
     fn shape() -> Shape {
         Shape::Bag(Box::new(T::shape()))
@@ -1087,10 +1116,18 @@ pub struct LimitedIo {
     pub buf: Vec<u8>,
     pub cap: usize,
     pub chunk: usize,
+    pub interrupted: bool,
 }
 
 impl std::io::Write for LimitedIo {
     fn write(&mut self, b: &[u8]) -> std::io::Result<usize> {
+        // an odd chunk size marks an interrupting sink: every call at an even fill level is interrupted once
+        // (ErrorKind::Interrupted is not an error: std's write_all retries it)
+        if self.chunk % 2 == 1 && self.chunk != usize::MAX && !self.interrupted {
+            self.interrupted = true;
+            return Err(std::io::Error::from(std::io::ErrorKind::Interrupted));
+        }
+        self.interrupted = false;
         let room = self.cap - self.buf.len();
         let k = b.len().min(self.chunk).min(room);
         if k == 0 && !b.is_empty() {
@@ -1181,7 +1218,7 @@ where
         self.arr.and_then(|f| f(&self.v, cap))
     }
     fn into_io_writer(&self, cap: usize, chunk: usize) -> SinkOut {
-        let mut w = minicbor::encode::write::Writer::new(LimitedIo { buf: Vec::new(), cap, chunk });
+        let mut w = minicbor::encode::write::Writer::new(LimitedIo { buf: Vec::new(), cap, chunk, interrupted: false });
         let res = minicbor::encode(&self.v, &mut w).map_err(|e| enc_class(&e));
         let io = w.into_inner();
         let pos = io.buf.len();
@@ -1323,7 +1360,7 @@ where
         None
     }
     fn into_io_writer(&self, cap: usize, chunk: usize) -> SinkOut {
-        let mut w = minicbor::encode::write::Writer::new(LimitedIo { buf: Vec::new(), cap, chunk });
+        let mut w = minicbor::encode::write::Writer::new(LimitedIo { buf: Vec::new(), cap, chunk, interrupted: false });
         let res = minicbor::encode(self.val, &mut w).map_err(|e| enc_class(&e));
         let io = w.into_inner();
         let pos = io.buf.len();
